@@ -61,6 +61,7 @@ def _get_symmetric_group_cayley_table_hf0(n:int, alternating:bool):
     tmp1 = {y:x for x,y in enumerate(perm_list)}
     tmp2 = np.array(perm_list, dtype=np.int64)
     ret = np.array(tuple([tuple([tmp1[tuple(y)] for y in x]) for x in tmp2[:, tmp2].tolist()]), dtype=np.int64)
+    ret.flags.writeable = False #cached and handed out to every caller
     return ret
 
 
@@ -111,6 +112,7 @@ def _get_sym_group_num_irrep_hf0(N:int, return_full=False):
     if N<=3:
         if return_full:
             tmp0 = np.array([[1,1,1,1], [1,1,1,1], [1,1,2,2], [1,1,2,3]]) #0,1,2,3
+            tmp0.flags.writeable = False #cached and handed out to every caller
             ret = N, tmp0[:(N+1),:(N+1)]
         else:
             ret = N
@@ -126,6 +128,7 @@ def _get_sym_group_num_irrep_hf0(N:int, return_full=False):
                 r = np.arange(n//m+1)
                 z0[n,m] = z0[n-r*m, m-1].sum()
         tmp0 = z0[-1,-1].item()
+        z0.flags.writeable = False #cached and handed out to every caller
         ret = (tmp0,z0) if return_full else tmp0
     return ret
 
